@@ -73,7 +73,8 @@ def fresh(x):
 
 
 # node labels of assorted hashable types (a falsy one, nested tuples, long strings); none can be confused with a number
-NODE_LABELS = [("n", 0), "node-b", ("q", (1, 2)), "", ("n", 4), "zz-5", ("r",), "seven"]
+# ("n", -1) and ("n", -2) are different labels with the same hash (CPython: hash(-1) == hash(-2))
+NODE_LABELS = [("n", -1), "node-b", ("q", (1, 2)), "", ("n", -2), "zz-5", ("r",), "seven"]
 
 
 def unlabel(obj, inv):
@@ -91,4 +92,5 @@ def unlabel(obj, inv):
 
 
 # mutually orderable labels (increasing like the node numbers they stand for), the first one falsy
-ORD_LABELS = [(), ("a",), ("a", "b"), ("b",), ("b", "a"), ("c",), ("c", "c"), ("d",)]
+# ("a", -2) < ("a", -1) are distinct but hash alike
+ORD_LABELS = [(), ("a", -2), ("a", -1), ("b",), ("b", "a"), ("c",), ("c", "c"), ("d",)]
